@@ -225,7 +225,11 @@ def run_case(case):
                 key = 'crash:inline-callback-field-in-union'
             res['viol'].append((key, 'compiler exit %s: %s' % (rc, se.strip()[-300:]), replay))
             return res
-        tl = typelib.Typelib(open(tpath, 'rb').read())
+        try:
+            tl = typelib.Typelib(open(tpath, 'rb').read())
+        except typelib.TypelibDecodeError as e:
+            res['viol'].append(('typelib-malformed', 'the compiled typelib cannot be decoded by the independent decoder: %s' % e, replay))
+            return res
         ents = {e['name']: e for e in tl.entries if e['local']}
         for e in enums:
             b = ents[e['name']]['blob']
